@@ -12,14 +12,21 @@
       moved by lattice vectors: only the image vectors change), `occ_perm` (atoms listed in another order: keys are
       mapped through the permutation) — statements about the occurrence SET the search is supposed to return.
       `occ_pattern_rigid` (pattern moved by a rotation + translation).
-  NOT proved (stretch, see theorems/C03.json): `find_keys_eq_occ_partial` (find = Occ under OracleAligns +
-  unambiguity), `occ_replicate`.  The link "search result = Occ" is what the correspondence run and the
+  PARTIAL (explicit hypotheses `FindIsOcc`: guards of C02, 2ε ≤ atol, soundness of the reports = property C01, and
+  `OracleAligns`): `find_keys_eq_occ_partial` (reported key set = `Occ`) and, through the invariances of `Occ`, the
+  invariance of the key set of `find` ITSELF under shift + wrap, atom permutation, rigid motion of the pattern.
+  Supercells: `occ_replicate_lift` / `occ_replicate_fold` (full, no guard): every unit-cell occurrence appears in the
+  supercell once for every image and every supercell occurrence folds back; `supercell_count_counterexample`: in a
+  narrow cell (D < width < 2D) the COUNT relation is false (1 match in the unit cell, 4 in the 1×2×1 supercell).
+  NOT proved: the count relation |Occ(supercell)| = a·b·c·|Occ(unit)| under the guard width > 2D.  The link "search result = Occ" is what the correspondence run and the
   metamorphic oracle of harness/props/c03.py validate.
 -/
 import MofunModel.Proofs.FindCompleteGroup
 import MofunModel.Proofs.OccHints
 import MofunModel.Proofs.OccLemmas
 import MofunModel.Proofs.OccPattern
+import MofunModel.Proofs.OccFind
+import MofunModel.Proofs.OccReplicate
 
 namespace Mofun
 
@@ -115,6 +122,121 @@ theorem occ_pattern_rigid (inp : FindInput) (Rm : Mat3) (tm : Vec3) (hRm : Rm.Is
     (hRmT : Rm.transpose.IsProperRotation) (epsSq : Rat) (key : List Nat) :
     Occ (inp.movePattern Rm tm) epsSq key ↔ Occ inp epsSq key :=
   occ_movePattern_iff inp Rm tm hRm hRmT epsSq key
+
+/-! ## the search result is the occurrence set (partial) — hence invariant -/
+
+/-- **find_keys_eq_occ_partial.** Under `FindIsOcc` — guards of the completeness theorem, `2ε ≤ atol`, soundness of
+    the reports (property C01: every reported group is an ε-occurrence) and `OracleAligns` — the reported key set
+    is exactly `Occ(S, P, ε)`.  Missing for full strength: C01's soundness theorem for the code's oracle and
+    `OracleAligns` (float numerics). -/
+theorem find_keys_eq_occ_partial (inp : FindInput) (ax1 : Nat) (oracle : Nat → Nat → Quat)
+    (choose : Nat → List Nat → Nat) (epsSq : Rat) (h : FindIsOcc inp ax1 oracle choose epsSq) (k : List Nat) :
+    k ∈ (find inp ax1 oracle choose).map Match.key ↔ Occ inp epsSq k :=
+  find_keys_iff_occ inp ax1 oracle choose epsSq h k
+
+/-- shift the structure by any vector and move atoms by lattice vectors (wrap): same reported groups, same count —
+    whatever hints, oracle and chooser the two searches use, as long as both satisfy `FindIsOcc` -/
+theorem find_invariant_shift_wrap_partial (inp inp' : FindInput) (v : Vec3) (w : Nat → Int × Int × Int)
+    (hm : LatticeMoved (inp.shift v) inp' w) (ax1 ax1' : Nat) (oracle oracle' : Nat → Nat → Quat)
+    (choose choose' : Nat → List Nat → Nat) (epsSq : Rat)
+    (h : FindIsOcc inp ax1 oracle choose epsSq) (h' : FindIsOcc inp' ax1' oracle' choose' epsSq) :
+    ((find inp ax1 oracle choose).map Match.key).Perm ((find inp' ax1' oracle' choose').map Match.key) ∧
+    (find inp ax1 oracle choose).length = (find inp' ax1' oracle' choose').length :=
+  find_keys_perm_of_occ_iff inp inp' ax1 ax1' oracle oracle' choose choose' epsSq h h'
+    (fun k => occ_shift_wrap inp inp' v w hm epsSq k)
+
+/-- rigid motion of the pattern: same reported groups, same count -/
+theorem find_invariant_pattern_rigid_partial (inp : FindInput) (Rm : Mat3) (tm : Vec3) (hRm : Rm.IsProperRotation)
+    (hRmT : Rm.transpose.IsProperRotation) (ax1 ax1' : Nat) (oracle oracle' : Nat → Nat → Quat)
+    (choose choose' : Nat → List Nat → Nat) (epsSq : Rat)
+    (h : FindIsOcc inp ax1 oracle choose epsSq) (h' : FindIsOcc (inp.movePattern Rm tm) ax1' oracle' choose' epsSq) :
+    ((find inp ax1 oracle choose).map Match.key).Perm
+      ((find (inp.movePattern Rm tm) ax1' oracle' choose').map Match.key) ∧
+    (find inp ax1 oracle choose).length = (find (inp.movePattern Rm tm) ax1' oracle' choose').length :=
+  find_keys_perm_of_occ_iff inp (inp.movePattern Rm tm) ax1 ax1' oracle oracle' choose choose' epsSq h h'
+    (fun k => (occ_pattern_rigid inp Rm tm hRm hRmT epsSq k).symm)
+
+/-- atoms listed in another order (old atom `i` = new atom `σ i`): every reported group of the first search,
+    renamed through `σ`, is reported by the second (with the inverse renaming this gives the other inclusion) -/
+theorem find_keys_perm_partial (inp inp' : FindInput) (σ : Nat → Nat) (hr : Renamed inp inp' σ) (ax1 ax1' : Nat)
+    (oracle oracle' : Nat → Nat → Quat) (choose choose' : Nat → List Nat → Nat) (epsSq : Rat)
+    (h : FindIsOcc inp ax1 oracle choose epsSq) (h' : FindIsOcc inp' ax1' oracle' choose' epsSq)
+    (k : List Nat) (hk : k ∈ (find inp ax1 oracle choose).map Match.key) :
+    sortNat (k.map σ) ∈ (find inp' ax1' oracle' choose').map Match.key :=
+  (find_keys_iff_occ inp' ax1' oracle' choose' epsSq h' _).mpr
+    (occ_perm inp inp' σ hr epsSq k ((find_keys_iff_occ inp ax1 oracle choose epsSq h k).mp hk))
+
+/-! ## supercells -/
+
+/-- **occ_replicate (lift).** Every occurrence `(g, n)` of the unit cell occurs in the a×b×c supercell with its first
+    atom in ANY image `m` of the box — "once per image": the supercell atoms fold back onto `g` (`% N`) and the first
+    one is atom `g 0` of image `m`.  No guard. -/
+theorem occ_replicate_lift (inp : FindInput) (a b c : Nat) (hlen : inp.elems.length = inp.pos.length) (epsSq : Rat)
+    (g : Nat → Nat) (n : Nat → Int × Int × Int) (h : RigidOccurrence inp epsSq g n)
+    (m : Nat × Nat × Nat) (h1 : m.1 < a) (h2 : m.2.1 < b) (h3 : m.2.2 < c) :
+    ∃ g' n', RigidOccurrence (inp.replicate a b c) epsSq g' n' ∧
+      (∀ k, k < inp.ppos.length → g' k % inp.pos.length = g k) ∧
+      g' 0 = encodeImg b c m * inp.pos.length + g 0 :=
+  rigid_replicate_lift inp a b c hlen epsSq g n h m h1 h2 h3
+
+/-- **occ_replicate (fold).** Every occurrence of the supercell is, after folding the atom indices with `% N`, an
+    occurrence of the unit cell.  No guard. -/
+theorem occ_replicate_fold (inp : FindInput) (a b c : Nat) (hlen : inp.elems.length = inp.pos.length) (epsSq : Rat)
+    (g' : Nat → Nat) (n' : Nat → Int × Int × Int) (h : RigidOccurrence (inp.replicate a b c) epsSq g' n') :
+    ∃ n, RigidOccurrence inp epsSq (fun k => g' k % inp.pos.length) n :=
+  rigid_replicate_fold inp a b c hlen epsSq g' n' h
+
+/-
+  NOT proved: the count form  #{keys of Occ(replicate S a b c)} = a·b·c · #{keys of Occ(S)}  under the guard
+  "every perpendicular width > 2·(diameter + 2·atol)".  It needs, beyond lift/fold, that lifts into different images
+  are different atom groups and that an atom group of the unit cell has a single realisation (image vectors
+  determined by the atoms) — both consequences of the guard; below the guard both fail, as the next example shows.
+-/
+
+/-- the narrow cell of the known finding C03-supercell-two-images-one-group: 1.70 × 1.50 × 1.50 Å, a C–O pair
+    (1.25 Å); the O atom and its image O + b are BOTH 1.25 Å from the C atom -/
+def c03Narrow : FindInput :=
+  { elems := ["C", "O"], pos := [⟨6/5, 19/20, 1/2⟩, ⟨1/5, 1/5, 1/2⟩],
+    cell := ⟨⟨17/10, 0, 0⟩, ⟨0, 3/2, 0⟩, ⟨0, 0, 3/2⟩⟩,
+    pelems := ["C", "O"], ppos := [⟨0, 0, 0⟩, ⟨5/4, 0, 0⟩], atol := 1/20 }
+
+/-- exact rotations for the two directions C→O = (−1, ∓3/4, 0): quaternions (0, 0, ∓3, 1) -/
+def c03NarrowOracle : Nat → Nat → Quat := fun g i => if (g + i) % 2 = 0 then ⟨0, 0, -3, 1⟩ else ⟨0, 0, 3, 1⟩
+
+/-- the cell satisfies the property's guard (every width > diameter + 2·atol; all guards of the completeness theorem) -/
+example : searchGuards c03Narrow = true := by decide +kernel
+
+/-- **supercell_count_counterexample.** With the guard of the property (widths > D) but a width below 2·D the
+    supercell relation is false: the unit cell has ONE candidate group with TWO tuples passing the re-check (the
+    two images of the O atom) and reports 1 match; the 1×2×1 supercell reports 4 = 2·2, not 2·1. -/
+theorem supercell_count_counterexample :
+    (findGroups c03Narrow 0 c03NarrowOracle).2 = [{ key := [0, 1], tuples := [[0, 1], [0, 29]], good := [0, 1] }] ∧
+    (find c03Narrow 0 c03NarrowOracle (fun _ _ => 0)).length = 1 ∧
+    ((find (c03Narrow.replicate 1 2 1) 0 c03NarrowOracle (fun _ _ => 0)).map Match.key)
+      = [[0, 1], [0, 3], [2, 3], [1, 2]] := by
+  decide +kernel
+
+/-- the same at spec level: ONE atom group {C, O} of the narrow cell carries TWO different occurrences (exact fits,
+    ε = 0): with the O in the home image and with the O in the image (0, 1, 0) -/
+theorem narrow_cell_two_realisations :
+    RigidOccurrence c03Narrow 0 (fun k => k) (fun _ => (0, 0, 0)) ∧
+    RigidOccurrence c03Narrow 0 (fun k => k) (fun k => if k = 1 then (0, 1, 0) else (0, 0, 0)) := by
+  have two : ∀ k, k < 2 → k = 0 ∨ k = 1 := by intro k hk; omega
+  constructor
+  · refine { idx_lt := fun k hk => hk, home := rfl, elem := ?_, fit := ?_ }
+    · intro k hk
+      rcases two k hk with rfl | rfl <;> rfl
+    · refine ⟨⟨⟨-4/5, 3/5, 0⟩, ⟨-3/5, -4/5, 0⟩, ⟨0, 0, 1⟩⟩, ⟨6/5, 19/20, 1/2⟩,
+        by unfold Mat3.IsProperRotation; decide +kernel, ?_⟩
+      intro k hk
+      rcases two k hk with rfl | rfl <;> decide +kernel
+  · refine { idx_lt := fun k hk => hk, home := rfl, elem := ?_, fit := ?_ }
+    · intro k hk
+      rcases two k hk with rfl | rfl <;> rfl
+    · refine ⟨⟨⟨-4/5, -3/5, 0⟩, ⟨3/5, -4/5, 0⟩, ⟨0, 0, 1⟩⟩, ⟨6/5, 19/20, 1/2⟩,
+        by unfold Mat3.IsProperRotation; decide +kernel, ?_⟩
+      intro k hk
+      rcases two k hk with rfl | rfl <;> decide +kernel
 
 /-! ## non-vacuity -/
 
